@@ -26,6 +26,8 @@ import re
 
 TEMPLATE_NAME = re.compile(r"^l_\d+_")
 TMP_NAME = re.compile(r"^t_\d+$")
+FOLDED_OBJECT = re.compile(r"<class '|<built-in method |<built-in function |<method-wrapper |<slot wrapper |"
+                           r"<bound method |<function |<method '|<attribute '| object at 0x|<member '")
 
 #: names the code generator itself introduces (read off compiler.py: CodeGenerator
 #: writes exactly these identifiers besides l_* and t_*)
@@ -150,6 +152,11 @@ class _Walk:
                         self.stats["namespace_store"] += 1  # {% set ns.a = .. %} after isinstance(Namespace) guard
                     else:
                         self.viol.append(("subscript", ast.unparse(n)[:160]))
+            elif isinstance(n, ast.Constant) and isinstance(n.value, str):
+                # a constant the optimizer folded into the code must never be the repr of a python
+                # object obtained through an attribute (class, function, bound / builtin method ...)
+                if FOLDED_OBJECT.search(n.value):
+                    self.viol.append(("folded-object-repr", repr(n.value)[:160]))
             elif isinstance(n, ast.Call):
                 d = dotted(n.func)
                 if d in SANDBOX_GATES:
